@@ -1,13 +1,688 @@
 import Pun.Model.Tmcmc
 import Mathlib.Tactic.Linarith
+import Mathlib.Tactic.Ring
+import Mathlib.Tactic.Positivity
+import Mathlib.Tactic.FieldSimp
+import Mathlib.Algebra.Order.Field.Rat
+import Mathlib.Algebra.Order.Field.Basic
+import Mathlib.Order.Monotone.Basic
+/-!
+# C19 — TMCMC tempering progresses to the posterior; its MH kernel respects the target
+
+All statements are about the functions the driver executes (`Pun.Tmcmc.loopO`, `computeBeta`,
+`weights`, `evidenceArg`, `mhStep`, `mhRun`, `retemper`, `stage`, `runStages`), for every oracle
+`ess`, every rational input, every list length and every proposal / uniform stream.
+-/
+set_option linter.unusedSimpArgs false
+set_option linter.unusedVariables false
 namespace Pun.Tmcmc
+
+/-! ## 1. the bisection on the exponent -/
+
+/-- strict progress of the loop (P12 `loop_gt`): the exponent returned exceeds every lower bound
+`b ≤ min` that the current candidate already exceeds -/
+theorem loopO_gt (ess : Rat → Ans) (rN tol b : Rat) (htol : 0 ≤ tol) (f : Nat) (mn mx nb e r er : Rat)
+    (hb : b ≤ mn) (hnb : b < nb) (h : loopO ess rN tol f mn mx nb e = .done r er) : b < r := by
+  induction f generalizing mn mx nb e with
+  | zero => simp [loopO] at h; obtain ⟨rfl, _⟩ := h; exact hnb
+  | succ f ih =>
+    simp only [loopO] at h
+    split_ifs at h with h1
+    · split at h
+      · simp at h
+      · simp at h
+      · split_ifs at h with h2 h3
+        · simp at h; obtain ⟨rfl, _⟩ := h; linarith
+        · exact ih mn _ _ _ hb (by linarith) h
+        · exact ih _ mx _ _ (by linarith) (by linarith) h
+    · simp at h; obtain ⟨rfl, _⟩ := h; exact hnb
+
+/-- (P12 `loop_gt_of_wide`) when the bracket is wider than the tolerance the first candidate is tried -/
+theorem loopO_gt_of_wide (ess : Rat → Ans) (rN tol : Rat) (htol : 0 ≤ tol) (f : Nat) (mn mx nb e r er : Rat)
+    (hw : tol < mx - mn) (h : loopO ess rN tol (f + 1) mn mx nb e = .done r er) : mn < r := by
+  simp only [loopO, hw, if_true] at h
+  split at h
+  · simp at h
+  · simp at h
+  · split_ifs at h with h2 h3
+    · simp at h; obtain ⟨rfl, _⟩ := h; linarith
+    · exact loopO_gt ess rN tol mn htol f mn _ _ _ r er (le_refl _) (by linarith) h
+    · exact loopO_gt ess rN tol mn htol f _ mx _ _ r er (by linarith) (by linarith) h
+
+/-- (P12 `loop_le`) the exponent returned never exceeds the upper end of the bracket -/
+theorem loopO_le (ess : Rat → Ans) (rN tol : Rat) (f : Nat) (mn mx nb e r er : Rat)
+    (hmm : mn ≤ mx) (hnb : nb ≤ mx) (h : loopO ess rN tol f mn mx nb e = .done r er) : r ≤ mx := by
+  induction f generalizing mn mx nb e with
+  | zero => simp [loopO] at h; obtain ⟨rfl, _⟩ := h; exact hnb
+  | succ f ih =>
+    simp only [loopO] at h
+    split_ifs at h with h1
+    · split at h
+      · simp at h
+      · simp at h
+      · split_ifs at h with h2 h3
+        · simp at h; obtain ⟨rfl, _⟩ := h; linarith
+        · have := ih mn ((mx + mn) / 2) _ _ (by linarith) (le_refl _) h; linarith
+        · exact ih _ mx _ _ (by linarith) (by linarith) h
+    · simp at h; obtain ⟨rfl, _⟩ := h; exact hnb
+
+/-- (P12 `loop_fuel`) termination: once `tol · 2^f` covers the bracket, extra fuel changes nothing,
+i.e. the fuelled loop *is* the Python `while` loop -/
+theorem loopO_fuel (ess : Rat → Ans) (rN tol : Rat) (htol : 0 < tol) (f g : Nat) (mn mx nb e : Rat)
+    (hw : mx - mn ≤ tol * 2 ^ f) :
+    loopO ess rN tol (f + g) mn mx nb e = loopO ess rN tol f mn mx nb e := by
+  induction f generalizing mn mx nb e with
+  | zero =>
+    have hstop : ¬ tol < mx - mn := by simp at hw; linarith
+    cases g with
+    | zero => rfl
+    | succ g => simp [loopO, hstop]
+  | succ f ih =>
+    have e1 : f + 1 + g = (f + g) + 1 := by omega
+    rw [e1]
+    simp only [loopO]
+    have hhalf : ∀ a c : Rat, c - a = (mx - mn) / 2 → c - a ≤ tol * 2 ^ f := by
+      intro a c h; rw [h]; rw [pow_succ] at hw; linarith
+    split_ifs with h1
+    · split
+      · rfl
+      · rfl
+      · split_ifs with h2 h3
+        · rfl
+        · exact ih _ _ _ _ (hhalf _ _ (by ring))
+        · exact ih _ _ _ _ (hhalf _ _ (by ring))
+    · rfl
+
+/-- ★ every stage strictly increases the tempering exponent and never exceeds 1 -/
+theorem beta_strictly_increases (c : Consts) (ess : Rat → Ans) (old prev b e : Rat) (cl : Bool)
+    (htol : 0 ≤ c.tol) (hold : old < 1)
+    (h : computeBeta c ess old prev = .done b e cl) : old < b := by
+  unfold computeBeta at h
+  split_ifs at h with hw
+  split at h
+  · simp at h
+  · simp at h
+  · rename_i r er hl
+    have hr : old < r := loopO_gt_of_wide ess (rN c prev) c.tol htol 63 old c.maxBeta old 0 r er hw hl
+    split_ifs at h with h1
+    · simp at h; obtain ⟨rfl, _, _⟩ := h; exact hold
+    · simp at h; obtain ⟨rfl, _, _⟩ := h; exact hr
+
+/-- ★ the exponent is at most 1 -/
 theorem beta_le_one (c : Consts) (ess : Rat → Ans) (old prev b e : Rat) (cl : Bool)
     (h : computeBeta c ess old prev = .done b e cl) : b ≤ 1 := by
   unfold computeBeta at h
+  split_ifs at h with hw
   split at h
-  · split at h <;> try (simp at h)
-    split at h <;> simp at h <;> obtain ⟨rfl, _, _⟩ := h
-    · exact le_refl _
-    · linarith
   · simp at h
+  · simp at h
+  · split_ifs at h with h1
+    · simp at h; obtain ⟨rfl, _, _⟩ := h; exact le_refl _
+    · simp at h; obtain ⟨rfl, _, _⟩ := h; linarith
+
+/-- ★ the stage loop `while beta < 1` can only stop at exponent exactly 1 -/
+theorem loop_ends_at_one (c : Consts) (ess : Rat → Ans) (old prev b e : Rat) (cl : Bool)
+    (h : computeBeta c ess old prev = .done b e cl) (hstop : ¬ b < 1) : b = 1 :=
+  le_antisymm (beta_le_one c ess old prev b e cl h) (not_lt.mp hstop)
+
+/-- the clamp flag is set exactly when the exponent returned is 1 and then the raw candidate was ≥ 1 -/
+theorem clamped_iff (c : Consts) (ess : Rat → Ans) (old prev b e : Rat) (cl : Bool)
+    (h : computeBeta c ess old prev = .done b e cl) : cl = true ↔ b = 1 := by
+  unfold computeBeta at h
+  split_ifs at h with hw
+  split at h
+  · simp at h
+  · simp at h
+  · split_ifs at h with h1
+    · simp at h; obtain ⟨rfl, _, rfl⟩ := h; simp
+    · simp at h; obtain ⟨rfl, _, rfl⟩ := h
+      constructor
+      · intro h; simp at h
+      · intro h; exact absurd (le_of_eq h.symm) h1
+
+/-- the error branch: the loop body never runs (`old ≥ max_beta − tol`) ⇒ `UnboundLocalError` -/
+theorem unbound_iff (c : Consts) (ess : Rat → Ans) (old prev : Rat) :
+    computeBeta c ess old prev = .raise .Unbound ↔ ¬ c.tol < c.maxBeta - old := by
+  unfold computeBeta
+  split_ifs with hw
+  · simp only [hw, not_true_eq_false, iff_false]
+    split
+    · simp
+    · simp
+    · split_ifs <;> simp
+  · simp [hw]
+
+/-- ★ `fuel = 64` suffices for every `old ≥ 0`-style bracket: with `max_beta − old ≤ tol·2^64` the
+fuelled loop equals the loop with any larger fuel (the unbounded `while`) -/
+theorem bisect_fuel_suffices (c : Consts) (ess : Rat → Ans) (old prev : Rat) (htol : 0 < c.tol)
+    (hw : c.maxBeta - old ≤ c.tol * 2 ^ fuel) (g : Nat) :
+    loopO ess (rN c prev) c.tol (fuel + g) old c.maxBeta old 0
+      = loopO ess (rN c prev) c.tol fuel old c.maxBeta old 0 :=
+  loopO_fuel ess (rN c prev) c.tol htol fuel g old c.maxBeta old 0 hw
+
+/-- bracket invariant of the bisection w.r.t. a total ESS function `E` -/
+def LoOK (E : Rat → Rat) (rN old lo : Rat) : Prop := lo = old ∨ rN < E lo
+def HiOK (E : Rat → Rat) (rN top hi : Rat) : Prop := hi = top ∨ E hi < rN
+
+/-- the loop ends either exactly on target or with a bracket of width ≤ tol around the result whose
+lower end is above target and whose upper end is below target -/
+theorem loopO_bracket (ess : Rat → Ans) (E : Rat → Rat) (hE : ∀ b e, ess b = .val e → e = E b)
+    (rN tol old top : Rat) (f : Nat) (mn mx nb e r er : Rat)
+    (hw : mx - mn ≤ tol * 2 ^ f) (hmm : mn ≤ mx) (hnb : nb = mn ∨ nb = mx)
+    (hlo : LoOK E rN old mn) (hhi : HiOK E rN top mx)
+    (h : loopO ess rN tol f mn mx nb e = .done r er) :
+    (er = rN ∧ E r = rN) ∨
+    (∃ lo hi, lo ≤ r ∧ r ≤ hi ∧ hi - lo ≤ tol ∧ LoOK E rN old lo ∧ HiOK E rN top hi) := by
+  induction f generalizing mn mx nb e with
+  | zero =>
+    simp [loopO] at h; obtain ⟨rfl, _⟩ := h
+    right
+    refine ⟨mn, mx, ?_, ?_, by simpa using hw, hlo, hhi⟩ <;> rcases hnb with rfl | rfl <;> linarith
+  | succ f ih =>
+    simp only [loopO] at h
+    split_ifs at h with h1
+    · split at h
+      · simp at h
+      · simp at h
+      · rename_i e' he'
+        have hEe : e' = E ((mx + mn) / 2) := hE _ _ he'
+        have hhalf : ∀ a c : Rat, c - a = (mx - mn) / 2 → c - a ≤ tol * 2 ^ f := by
+          intro a c h; rw [h]; rw [pow_succ] at hw; linarith
+        split_ifs at h with h2 h3
+        · simp at h; obtain ⟨rfl, rfl⟩ := h
+          left; exact ⟨h2, by rw [← hEe]; exact h2⟩
+        · exact ih mn _ _ _ (hhalf _ _ (by ring)) (by linarith) (Or.inr rfl) hlo
+            (Or.inr (by rw [← hEe]; exact h3)) h
+        · have h4 : rN < e' := lt_of_le_of_ne (not_lt.mp h3) (Ne.symm h2)
+          exact ih _ mx _ _ (hhalf _ _ (by ring)) (by linarith) (Or.inl rfl)
+            (Or.inr (by rw [← hEe]; exact h4)) hhi h
+    · simp at h; obtain ⟨rfl, _⟩ := h
+      right
+      refine ⟨mn, mx, ?_, ?_, by linarith, hlo, hhi⟩ <;> rcases hnb with rfl | rfl <;> linarith
+
+/-- the `(new_beta, ESS)` pair returned by the loop is consistent: the ESS is that of the exponent -/
+theorem loopO_pair (ess : Rat → Ans) (E : Rat → Rat) (hE : ∀ b e, ess b = .val e → e = E b)
+    (rN tol : Rat) (f : Nat) (mn mx nb e0 r er : Rat)
+    (h0 : e0 = E nb ∨ (tol < mx - mn ∧ 0 < f))
+    (h : loopO ess rN tol f mn mx nb e0 = .done r er) : er = E r := by
+  induction f generalizing mn mx nb e0 with
+  | zero =>
+    simp [loopO] at h; obtain ⟨rfl, rfl⟩ := h
+    rcases h0 with h0 | ⟨_, h0⟩
+    · exact h0
+    · exact absurd h0 (lt_irrefl 0)
+  | succ f ih =>
+    simp only [loopO] at h
+    split_ifs at h with g1
+    · split at h
+      · simp at h
+      · simp at h
+      · rename_i e' he'
+        have := hE _ _ he'
+        split_ifs at h with g2 g3
+        · simp at h; obtain ⟨rfl, rfl⟩ := h; exact this
+        · exact ih _ _ _ _ (Or.inl this) h
+        · exact ih _ _ _ _ (Or.inl this) h
+    · simp at h; obtain ⟨rfl, rfl⟩ := h
+      rcases h0 with h0 | ⟨h0, _⟩
+      · exact h0
+      · exact absurd h0 g1
+
+/-- ★ optimality of the increment (exponent below 1).  For an antitone effective sample size `E`
+the exponent chosen either meets the target exactly, or lies within `tol` of the threshold:
+every exponent at least `tol` smaller keeps the ESS above the target, every exponent at least
+`tol` larger drops it below — i.e. `|b − sup {x | E x ≥ rN}| ≤ tol`.  Also the ESS returned is
+the ESS of the exponent returned. -/
+theorem bisect_optimal (c : Consts) (ess : Rat → Ans) (E : Rat → Rat)
+    (hE : ∀ b e, ess b = .val e → e = E b) (hanti : Antitone E)
+    (old prev b e : Rat) (htol : 0 < c.tol) (hfuel : c.maxBeta - old ≤ c.tol * 2 ^ fuel)
+    (h : computeBeta c ess old prev = .done b e false) :
+    e = E b ∧
+    (E b = rN c prev ∨
+     ((∀ x, old < x → x ≤ b - c.tol → rN c prev < E x) ∧
+      (∀ x, b + c.tol ≤ x → x < c.maxBeta → E x < rN c prev))) := by
+  unfold computeBeta at h
+  split_ifs at h with hw
+  split at h
+  · simp at h
+  · simp at h
+  · rename_i r er hl
+    split_ifs at h with h1
+    simp at h; obtain ⟨rfl, rfl⟩ := h
+    have hwide : old ≤ c.maxBeta := by linarith
+    have hb := loopO_bracket ess E hE (rN c prev) c.tol old c.maxBeta fuel old c.maxBeta old 0 b e
+      hfuel hwide (Or.inl rfl) (Or.inl rfl) (Or.inl rfl) hl
+    have her : e = E b := loopO_pair ess E hE (rN c prev) c.tol fuel old c.maxBeta old 0 b e
+      (Or.inr ⟨hw, by decide⟩) hl
+    refine ⟨her, ?_⟩
+    rcases hb with ⟨_, h2⟩ | ⟨lo, hi, h1', h2', h3', hlo, hhi⟩
+    · exact Or.inl h2
+    · right
+      constructor
+      · intro x hx1 hx2
+        rcases hlo with rfl | hlo
+        · linarith
+        · exact lt_of_lt_of_le hlo (hanti (by linarith))
+      · intro x hx1 hx2
+        rcases hhi with rfl | hhi
+        · linarith
+        · exact lt_of_le_of_lt (hanti (by linarith)) hhi
+
+/-- ★ optimality, clamped case: the exponent is set to 1 only when the target is still met by
+every exponent up to `1 − tol` (so the whole remaining increment is admissible) -/
+theorem bisect_clamp_justified (c : Consts) (ess : Rat → Ans) (E : Rat → Rat)
+    (hE : ∀ b e, ess b = .val e → e = E b) (hanti : Antitone E)
+    (old prev b e : Rat) (htol : 0 < c.tol) (hfuel : c.maxBeta - old ≤ c.tol * 2 ^ fuel)
+    (h : computeBeta c ess old prev = .done b e true) :
+    b = 1 ∧ ∀ x, old < x → x ≤ 1 - c.tol → rN c prev ≤ E x := by
+  unfold computeBeta at h
+  split_ifs at h with hw
+  split at h
+  · simp at h
+  · simp at h
+  · rename_i r er hl
+    split_ifs at h with h1
+    · simp at h; obtain ⟨rfl, rfl⟩ := h
+      refine ⟨rfl, ?_⟩
+      have hwide : old ≤ c.maxBeta := by linarith
+      have hb := loopO_bracket ess E hE (rN c prev) c.tol old c.maxBeta fuel old c.maxBeta old 0 r er
+        hfuel hwide (Or.inl rfl) (Or.inl rfl) (Or.inl rfl) hl
+      intro x hx1 hx2
+      rcases hb with ⟨_, h2⟩ | ⟨lo, hi, h1', h2', h3', hlo, hhi⟩
+      · rw [← h2]; exact hanti (by linarith)
+      · rcases hlo with rfl | hlo
+        · linarith
+        · exact le_of_lt (lt_of_lt_of_le hlo (hanti (by linarith)))
+    · simp at h
+
+/-! ## 2. importance weights and evidence -/
+
+theorem sumL_nonneg (w : List Rat) (h : ∀ x ∈ w, 0 ≤ x) : 0 ≤ sumL w := by
+  induction w with
+  | nil => simp [sumL]
+  | cons a t ih =>
+    have h1 := h a (by simp)
+    have h2 := ih (fun x hx => h x (by simp [hx]))
+    simp only [sumL, List.foldr_cons] at *
+    linarith
+
+theorem sumL_ge_mem (w : List Rat) (h : ∀ x ∈ w, 0 ≤ x) (a : Rat) (ha : a ∈ w) : a ≤ sumL w := by
+  induction w with
+  | nil => simp at ha
+  | cons b t ih =>
+    have hb := h b (by simp)
+    have ht := sumL_nonneg t (fun x hx => h x (by simp [hx]))
+    simp only [sumL, List.foldr_cons] at *
+    rcases List.mem_cons.mp ha with rfl | ha'
+    · linarith
+    · have := ih (fun x hx => h x (by simp [hx])) ha'; linarith
+
+theorem sumL_map_div (w : List Rat) (s : Rat) : sumL (w.map (· / s)) = sumL w / s := by
+  induction w with
+  | nil => simp [sumL]
+  | cons a t ih => simp only [sumL, List.map_cons, List.foldr_cons] at *; rw [ih]; ring
+
+/-- ★ the importance weights are a probability vector -/
+theorem weights_probability_vector (w : List Rat) (hnn : ∀ x ∈ w, 0 ≤ x) (hpos : 0 < sumL w) :
+    (∀ y ∈ weights w, 0 ≤ y) ∧ sumL (weights w) = 1 ∧ (weights w).length = w.length := by
+  refine ⟨?_, ?_, by simp [weights]⟩
+  · intro y hy
+    simp only [weights, List.mem_map] at hy
+    obtain ⟨x, hx, rfl⟩ := hy
+    exact div_nonneg (hnn x hx) (le_of_lt hpos)
+  · unfold weights; rw [sumL_map_div]; exact div_self (ne_of_gt hpos)
+
+/-- ★ …proportional to the unnormalised weights `likelihood^(increment)` supplied as `w`:
+one positive constant `k = 1/Σw` scales every entry -/
+theorem weights_proportional (w : List Rat) (hpos : 0 < sumL w) :
+    ∃ k : Rat, 0 < k ∧ weights w = w.map (k * ·) := by
+  refine ⟨1 / sumL w, by positivity, ?_⟩
+  unfold weights
+  apply List.map_congr_left
+  intro x _; ring
+
+/-- ★ the evidence update takes the logarithm of a number in `(0, ∞)`: some unnormalised weight is
+1 (the particle with maximal likelihood), so `Σw ≥ 1` and `Σw / N ≥ 1/N > 0` -/
+theorem evidence_finite (w : List Rat) (hnn : ∀ x ∈ w, 0 ≤ x) (hone : (1 : Rat) ∈ w) :
+    1 ≤ sumL w ∧ 0 < evidenceArg w ∧ 1 / (w.length : Rat) ≤ evidenceArg w := by
+  have h1 : 1 ≤ sumL w := sumL_ge_mem w hnn 1 hone
+  have hlen : 0 < (w.length : Rat) := by
+    have : 0 < w.length := List.length_pos_of_mem hone
+    exact_mod_cast this
+  refine ⟨h1, ?_, ?_⟩
+  · unfold evidenceArg; exact div_pos (by linarith) hlen
+  · unfold evidenceArg; exact div_le_div_of_nonneg_right h1 (le_of_lt hlen)
+
+/-! ## 3. the Metropolis–Hastings kernel -/
+
+/-- a step either keeps the state or makes the accepting move, and the latter only for a proposal
+with finite log-prior, finite log-acceptance and `log u < log_acceptance` -/
+theorem mhStep_cases (β : Rat) (s : MState) (p : Proposal) (lus : List Rat) (s' : MState)
+    (rest : List Rat) (cd : Nat) (h : mhStep β s p lus = some (s', rest, cd)) :
+    (s' = s ∧ cd ≠ 2) ∨
+    (s' = accept β s p ∧ cd = 2 ∧ ∃ la lu, logAcc β s p = some la ∧ lus = lu :: rest ∧ lu < la) := by
+  unfold mhStep at h
+  split at h
+  · simp at h; obtain ⟨rfl, _, rfl⟩ := h; left; refine ⟨rfl, ?_⟩; split_ifs <;> simp
+  · rename_i la hla
+    split at h
+    · simp at h
+    · rename_i lu rest'
+      split_ifs at h with hlt
+      · simp at h; obtain ⟨rfl, rfl, rfl⟩ := h
+        right; exact ⟨rfl, rfl, la, lu, hla, rfl, hlt⟩
+      · simp at h; obtain ⟨rfl, rfl, rfl⟩ := h; left; exact ⟨rfl, by simp⟩
+
+/-- ★ acceptance rule: a step accepts iff the log-acceptance is finite and the next log-uniform is
+below it -/
+theorem mh_accept_iff (β : Rat) (s : MState) (p : Proposal) (lus : List Rat) (s' : MState)
+    (rest : List Rat) (cd : Nat) (h : mhStep β s p lus = some (s', rest, cd)) :
+    cd = 2 ↔ ∃ la lu, logAcc β s p = some la ∧ lus = lu :: rest ∧ lu < la := by
+  constructor
+  · intro hc
+    rcases mhStep_cases β s p lus s' rest cd h with ⟨_, h2⟩ | ⟨_, _, h3⟩
+    · exact absurd hc h2
+    · exact h3
+  · rintro ⟨la, lu, h1, rfl, h3⟩
+    unfold mhStep at h
+    rw [h1] at h
+    simp [h3] at h
+    exact h.2.symm
+
+/-- …which is acceptance with probability `min(1, ratio)`: for a strictly increasing `exp`,
+`log u < log_acceptance ⇔ u < min(1, exp(log_acceptance))` for every `u = exp(log u) < 1` -/
+theorem accept_iff_uniform_lt_min {K : Type*} [LinearOrder K] [One K] (ex : Rat → K) (hex : StrictMono ex)
+    (lu la : Rat) (hu : ex lu < 1) : lu < la ↔ ex lu < min 1 (ex la) := by
+  rw [lt_min_iff]
+  constructor
+  · intro h; exact ⟨hu, hex h⟩
+  · intro h; exact hex.lt_iff_lt.mp h.2
+
+/-- accepted proposals have a finite log-prior (the support guard) -/
+theorem accept_prior_finite (β : Rat) (s : MState) (p : Proposal) (la : Rat)
+    (h : logAcc β s p = some la) : p.prior.isSome := by
+  unfold logAcc propLP at h
+  cases hp : p.prior with
+  | none => rw [hp] at h; simp [EV.sub] at h
+  | some v => simp
+
+/-- ★ a Metropolis–Hastings run never leaves the support of the prior: `InS` is any predicate that
+holds at the start and at every proposal whose log-prior is finite -/
+theorem mh_support (InS : List Rat → Prop) (β : Rat) (ps : List Proposal) :
+    ∀ (s : MState) (lus : List Rat) (s' : MState) (rest : List Rat) (cs : List Nat),
+    InS s.x → (∀ p ∈ ps, p.prior.isSome → InS p.x) →
+    mhRun β s ps lus = some (s', rest, cs) → InS s'.x := by
+  induction ps with
+  | nil => intro s lus s' rest cs h0 _ h; simp [mhRun] at h; obtain ⟨rfl, _, _⟩ := h; exact h0
+  | cons p ps ih =>
+    intro s lus s' rest cs h0 hp h
+    simp only [mhRun] at h
+    split at h
+    · simp at h
+    · rename_i s1 lus1 c1 hstep
+      split at h
+      · simp at h
+      · rename_i s2 lus2 cs2 hrun
+        simp at h; obtain ⟨rfl, rfl, rfl⟩ := h
+        apply ih s1 lus1 s2 lus2 cs2 ?_ (fun q hq => hp q (by simp [hq])) hrun
+        rcases mhStep_cases β s p lus s1 lus1 c1 hstep with ⟨rfl, _⟩ | ⟨rfl, _, la, lu, hla, _, _⟩
+        · exact h0
+        · exact hp p (by simp) (accept_prior_finite β s p la hla)
+
+/-- the invariant "stored log-likelihood and tempered log-posterior are those of the state at β" -/
+def Consistent (priorF likF : List Rat → EV) (β : Rat) (x : List Rat) (lik post : EV) : Prop :=
+  lik = likF x ∧ post = EV.add (priorF x) (EV.smul β (likF x))
+
+/-- ★ the state returned by a run carries its own log-likelihood and tempered log-posterior at the
+current exponent, provided the entry state does (see `retemper_invariant`) and the proposal
+records are the prior / likelihood of their points -/
+theorem mh_consistent (priorF likF : List Rat → EV) (β : Rat) (ps : List Proposal) :
+    ∀ (s : MState) (lus : List Rat) (s' : MState) (rest : List Rat) (cs : List Nat),
+    Consistent priorF likF β s.x s.lik s.post →
+    (∀ p ∈ ps, p.prior = priorF p.x ∧ (p.prior.isSome → p.lik = likF p.x)) →
+    mhRun β s ps lus = some (s', rest, cs) → Consistent priorF likF β s'.x s'.lik s'.post := by
+  induction ps with
+  | nil => intro s lus s' rest cs h0 _ h; simp [mhRun] at h; obtain ⟨rfl, _, _⟩ := h; exact h0
+  | cons p ps ih =>
+    intro s lus s' rest cs h0 hp h
+    simp only [mhRun] at h
+    split at h
+    · simp at h
+    · rename_i s1 lus1 c1 hstep
+      split at h
+      · simp at h
+      · rename_i s2 lus2 cs2 hrun
+        simp at h; obtain ⟨rfl, rfl, rfl⟩ := h
+        apply ih s1 lus1 s2 lus2 cs2 ?_ (fun q hq => hp q (by simp [hq])) hrun
+        rcases mhStep_cases β s p lus s1 lus1 c1 hstep with ⟨rfl, _⟩ | ⟨rfl, _, la, lu, hla, _, _⟩
+        · exact h0
+        · have hfin := accept_prior_finite β s p la hla
+          obtain ⟨hpr, hlk⟩ := hp p (by simp)
+          have hlk' := hlk hfin
+          obtain ⟨v, hv⟩ := Option.isSome_iff_exists.mp hfin
+          unfold Consistent accept propLP
+          simp only [hv]
+          rw [← hpr, hv, ← hlk']
+          exact ⟨rfl, rfl⟩
+
+/-! ## 4. the stage loop -/
+
+/-- ★ re-tempering establishes the entry invariant of the MH kernel at the new exponent -/
+theorem retemper_invariant (priorF likF : List Rat → EV) (β β' : Rat) (p : Particle)
+    (h : Consistent priorF likF β p.x p.lik p.post) :
+    Consistent priorF likF β' (retemper (β' - β) p).x (retemper (β' - β) p).lik (retemper (β' - β) p).post := by
+  obtain ⟨h1, h2⟩ := h
+  unfold retemper Consistent
+  simp only
+  refine ⟨h1, ?_⟩
+  rw [h2, h1]
+  cases priorF p.x <;> cases likF p.x <;> simp [EV.add, EV.smul]
+  ring
+
+/-- the population-level invariant: every particle is inside the support and consistent at `β` -/
+def PopOK (InS : List Rat → Prop) (priorF likF : List Rat → EV) (β : Rat) (ps : List Particle) : Prop :=
+  ∀ p ∈ ps, InS p.x ∧ Consistent priorF likF β p.x p.lik p.post
+
+/-- all proposal records of a stage are faithful to `priorF`, `likF`, and finite log-prior means
+inside the support -/
+def MovesOK (InS : List Rat → Prop) (priorF likF : List Rat → EV) (ms : List Move) : Prop :=
+  ∀ m ∈ ms, ∀ q ∈ m.props, (q.prior.isSome → InS q.x) ∧ q.prior = priorF q.x ∧ (q.prior.isSome → q.lik = likF q.x)
+
+theorem resample_mem (ps : List Particle) (ids : List Nat) (cap : List Particle)
+    (h : resample ps ids = some cap) : cap.length = ids.length ∧ ∀ p ∈ cap, p ∈ ps := by
+  unfold resample at h
+  induction ids generalizing cap with
+  | nil => simp at h; subst h; simp
+  | cons i is ih =>
+    rw [List.mapM_cons] at h
+    cases hi : ps[i]? with
+    | none => simp [hi] at h
+    | some a =>
+      cases hr : List.mapM (fun i => ps[i]?) is with
+      | none => simp [hi, hr] at h
+      | some t =>
+        simp [hi, hr] at h
+        subst h
+        obtain ⟨hl, hm⟩ := ih t hr
+        refine ⟨by simp [hl], ?_⟩
+        intro p hp
+        rcases List.mem_cons.mp hp with rfl | hp'
+        · exact List.mem_of_getElem? hi
+        · exact hm p hp'
+
+theorem mutateAll_ok (InS : List Rat → Prop) (priorF likF : List Rat → EV) (β : Rat) :
+    ∀ (cap : List Particle) (ms : List Move) (nxt : List (Particle × Nat)),
+    PopOK InS priorF likF β cap → MovesOK InS priorF likF ms →
+    mutateAll β cap ms = some nxt →
+    nxt.length = cap.length ∧ PopOK InS priorF likF β (nxt.map (·.1)) := by
+  intro cap
+  induction cap with
+  | nil =>
+    intro ms nxt _ _ h
+    cases ms with
+    | nil => simp [mutateAll] at h; subst h; simp [PopOK]
+    | cons _ _ => simp [mutateAll] at h
+  | cons p cap ih =>
+    intro ms nxt hpop hmv h
+    cases ms with
+    | nil => simp [mutateAll] at h
+    | cons m ms =>
+      simp only [mutateAll] at h
+      split at h
+      · rename_i r rs hr hrs
+        simp at h; subst h
+        obtain ⟨hl, hok⟩ := ih ms rs (fun q hq => hpop q (by simp [hq])) (fun m' hm' => hmv m' (by simp [hm'])) hrs
+        refine ⟨by simp [hl], ?_⟩
+        intro q hq
+        simp only [List.map_cons, List.mem_cons] at hq
+        rcases hq with rfl | hq
+        · unfold mutate at hr
+          split at hr
+          · simp at hr
+          · rename_i s rest cs hrun
+            simp at hr; subst hr
+            obtain ⟨hin, hcons⟩ := hpop p (by simp)
+            have hm := hmv m (by simp)
+            exact ⟨mh_support InS β m.props ⟨p.x, p.lik, p.post, 0⟩ m.lus s rest cs hin
+                      (fun q hq => (hm q hq).1) hrun,
+                   mh_consistent priorF likF β m.props ⟨p.x, p.lik, p.post, 0⟩ m.lus s rest cs hcons
+                      (fun q hq => (hm q hq).2) hrun⟩
+        · exact hok q hq
+      · simp at h
+
+/-- ★ one pass of the stage loop: from a population of `N` consistent particles inside the support
+at `β` it produces `N` resampled and `N` mutated particles, all inside the support and consistent
+at the new exponent `β'` -/
+theorem stage_invariant (InS : List Rat → Prop) (priorF likF : List Rat → EV) (β β' : Rat)
+    (ps : List Particle) (ids : List Nat) (ms : List Move) (cap : List Particle) (nxt : List (Particle × Nat))
+    (hpop : PopOK InS priorF likF β ps) (hmv : MovesOK InS priorF likF ms)
+    (h : stage β β' ps ids ms = some (cap, nxt)) :
+    cap.length = ps.length ∧ nxt.length = ps.length ∧
+    PopOK InS priorF likF β' cap ∧ PopOK InS priorF likF β' (nxt.map (·.1)) := by
+  unfold stage at h
+  split_ifs at h with hlen
+  split at h
+  · simp at h
+  · rename_i cap' hres
+    split at h
+    · simp at h
+    · rename_i nxt' hmut
+      simp at h; obtain ⟨rfl, rfl⟩ := h
+      obtain ⟨hl, hmem⟩ := resample_mem _ _ _ hres
+      have hcap : PopOK InS priorF likF β' cap' := by
+        intro p hp
+        have := hmem p hp
+        simp only [List.mem_map] at this
+        obtain ⟨p0, hp0, rfl⟩ := this
+        obtain ⟨hin, hc⟩ := hpop p0 hp0
+        exact ⟨hin, retemper_invariant priorF likF β β' p0 hc⟩
+      obtain ⟨hl2, hok2⟩ := mutateAll_ok InS priorF likF β' cap' ms nxt' hcap hmv hmut
+      have hlen' : ids.length = ps.length := not_not.mp hlen
+      exact ⟨by rw [hl, hlen'], by rw [hl2, hl, hlen'], hcap, hok2⟩
+
+/-- ★ shape of the trace: every stage records `N` particles, all inside the prior support (and all
+consistent with the exponent of their stage) -/
+theorem trace_shape (InS : List Rat → Prop) (priorF likF : List Rat → EV) :
+    ∀ (ss : List StageIn) (β : Rat) (ps : List Particle) (tr : List (List Particle)),
+    PopOK InS priorF likF β ps → (∀ s ∈ ss, MovesOK InS priorF likF s.moves) →
+    runStages β ps ss = some tr →
+    tr.length = ss.length + 1 ∧ ∀ pop ∈ tr, pop.length = ps.length ∧ ∀ p ∈ pop, InS p.x := by
+  intro ss
+  induction ss with
+  | nil =>
+    intro β ps tr hpop _ h
+    simp [runStages] at h; subst h
+    simp; intro p hp; exact (hpop p hp).1
+  | cons s ss ih =>
+    intro β ps tr hpop hmv h
+    simp only [runStages] at h
+    split at h
+    · simp at h
+    · rename_i cap nxt hst
+      split at h
+      · simp at h
+      · rename_i tr' hrun
+        simp at h; subst h
+        obtain ⟨_, hl2, _, hok⟩ := stage_invariant InS priorF likF β s.beta ps s.ids s.moves cap nxt hpop
+          (hmv s (by simp)) hst
+        obtain ⟨hlen, hall⟩ := ih s.beta (nxt.map (·.1)) tr' hok (fun t ht => hmv t (by simp [ht])) hrun
+        refine ⟨by simp [hlen], ?_⟩
+        intro pop hpop'
+        rcases List.mem_cons.mp hpop' with rfl | hp
+        · exact ⟨rfl, fun p hp => (hpop p hp).1⟩
+        · obtain ⟨h1, h2⟩ := hall pop hp
+          exact ⟨by rw [h1]; simp [hl2], h2⟩
+
+/-! ## 5. non-vacuity: concrete instances of the hypotheses used above -/
+
+/-- a step-shaped antitone ESS: 100 up to exponent 1/4, then 90 (target 95 for `prev = 100`) -/
+def exE (b : Rat) : Rat := if b ≤ 1/4 then 100 else 90
+
+example : Antitone exE := by
+  intro a b hab
+  unfold exE
+  split_ifs with h1 h2 <;> linarith
+
+/-- the bisection on `exE` stops unclamped within `1e-8` of the threshold `1/4` -/
+example : (match computeBeta consts (fun b => .val (exE b)) 0 100 with
+    | .done b e false => decide (1/4 - 1/100000000 ≤ b ∧ b ≤ 1/4 + 1/100000000 ∧ e = exE b)
+    | _ => false) = true := by decide +kernel
+
+/-- flat log-likelihoods: ESS stays at `N`, the exponent is clamped to 1 -/
+example : computeBeta consts (fun _ => .val 60) 0 60 = .done 1 60 true := by decide +kernel
+
+/-- the `ESS == rN` break: returns the first midpoint -/
+example : computeBeta consts (fun _ => .val 95) 0 100 = .done 1 95 true := by decide +kernel
+example : computeBeta consts (fun _ => .val 95) (1/2) 100 = .done 1 95 true := by decide +kernel
+
+/-- hypotheses of `bisect_fuel_suffices` / `bisect_optimal` hold for every `old ≥ 0` with the code's constants -/
+example (old : Rat) (h : 0 ≤ old) : consts.maxBeta - old ≤ consts.tol * 2 ^ fuel := by
+  have : consts.maxBeta = 2 := rfl
+  have h2 : consts.tol = 1/100000000 := rfl
+  rw [this, h2]; norm_num [fuel]; linarith
+
+/-- the NaN answer raises, an unanswered query is reported, `old ≥ 2 − 1e-8` is `UnboundLocalError` -/
+example : computeBeta consts (fun _ => .nan) 0 60 = .raise .Value := by decide +kernel
+example : computeBeta consts (tableEss [(1, .val 40)]) 0 100 = .need (1/2) := by decide +kernel
+example : computeBeta consts (fun _ => .val 60) 2 60 = .raise .Unbound := by decide +kernel
+
+/-- weights: `exp` values `[1, 1/2, 1/2]` -/
+example : weights [1, 1/2, 1/2] = [1/2, 1/4, 1/4] ∧ evidenceArg [1, 1/2, 1/2] = 2/3 := by decide +kernel
+example : (∀ x ∈ ([1, 1/2, 1/2] : List Rat), 0 ≤ x) ∧ (1 : Rat) ∈ ([1, 1/2, 1/2] : List Rat) ∧ 0 < sumL [1, 1/2, 1/2] := by
+  decide +kernel
+
+/-- uniform prior on `[0,1]` (log-density 0 inside, `-inf` outside) and log-likelihood `−x` -/
+def exPrior (x : List Rat) : EV := if x.all (fun v => decide (0 ≤ v ∧ v ≤ 1)) then some 0 else none
+def exLik (x : List Rat) : EV := some (-(sumL x))
+def exIn (x : List Rat) : Prop := x.all (fun v => decide (0 ≤ v ∧ v ≤ 1)) = true
+
+def exProps : List Proposal :=
+  [⟨[3/2], none, none⟩, ⟨[1/4], some 0, some (-1/4)⟩, ⟨[3/4], some 0, some (-3/4)⟩]
+
+/-- an MH run at `β = 1/2` from `x = 1/2`: outside the support (no uniform used), accepted, rejected -/
+example : mhRun (1/2) ⟨[1/2], some (-1/2), some (-1/4), 0⟩ exProps [-1, -1/8]
+    = some (⟨[1/4], some (-1/4), some (-1/8), 1⟩, [], [0, 2, 1]) := by decide +kernel
+
+example : Consistent exPrior exLik (1/2) [1/2] (some (-1/2)) (some (-1/4)) := by
+  unfold Consistent; decide +kernel
+
+example : ∀ p ∈ exProps, (p.prior.isSome → exIn p.x) ∧ p.prior = exPrior p.x ∧ (p.prior.isSome → p.lik = exLik p.x) := by
+  unfold exIn; decide +kernel
+
+/-- a two-particle, one-stage run: re-temper 0 → 1/2, resample `[1,1]`, mutate -/
+def exPop : List Particle := [⟨[1/2], some (-1/2), some 0⟩, ⟨[1/4], some (-1/4), some 0⟩]
+def exStage : StageIn := ⟨1/2, [1, 1], [⟨exProps, [-1, -1/8]⟩, ⟨[], []⟩]⟩
+
+example : runStages 0 exPop [exStage]
+    = some [exPop, [⟨[1/4], some (-1/4), some (-1/8)⟩, ⟨[1/4], some (-1/4), some (-1/8)⟩]] := by decide +kernel
+
+example : PopOK exIn exPrior exLik 0 exPop := by
+  unfold PopOK Consistent exIn; decide +kernel
+
+example : MovesOK exIn exPrior exLik exStage.moves := by
+  unfold MovesOK exIn; decide +kernel
+
+/-- `exp`-form of the acceptance rule instantiated with a strictly increasing map on ℚ -/
+example : StrictMono (fun x : Rat => x + 1) := fun a b h => by simpa using h
+
 end Pun.Tmcmc
